@@ -27,7 +27,8 @@
                            the first member attaining it), union (bound, tile cover), nesting (WKB, WKT,
                            GeoJSON: the members' encodings in order inside the collection's).
 
-  `orb.Round` has no Lean model and is therefore NOT covered here (it stays with the dynamic check).
+  `orb.Round` is NOT covered here (it stays with the dynamic check): its Lean model, `Orb/Round.lean`
+  with the theorems of `OrbProofs/C06Round.lean`, is not used by this file nor by Driver/C20.
   Many of the (b)/(c) statements below are proved by `rfl` / unfolding: they RESTATE the model's own
   dispatch in the vocabulary of the property, so their content is the fidelity of the model, which is
   established by the correspondence runs (C06–C18 for the packages, and the C20 cross product, whose
